@@ -169,6 +169,7 @@ type PathResult struct {
 	OblsUnsat  int // discharged by unsat
 	Unknown    int // inconclusive obligations / branches
 	Cuts       []string
+	Assumptions []string
 	Inputs     map[string]uint64 // sample model for the path (when requested)
 	Observed   []string
 	siblings   [][]traceEntry
@@ -208,6 +209,8 @@ type pathExec struct {
 	shaConcreteOverflow bool
 	inBlocked int
 	sleeps    int
+	dbg       []string
+	prefer    *term // witness preference for the next assertion (model selection only)
 	fmtSymbolic bool
 }
 
@@ -275,6 +278,9 @@ func (ex *pathExec) decide(c *term) bool {
 		panic(engineError{"symbolic decision in concrete mode: " + describe(c, 4)})
 	}
 	ex.res.Decisions++
+	if debugTrace {
+		ex.dbg = append(ex.dbg, "D:"+describe(c, 5)+"@"+ex.interp.whereShort())
+	}
 	var out bool
 	if ex.pos < len(ex.prefix) {
 		e := ex.prefix[ex.pos]
@@ -389,6 +395,9 @@ func (ex *pathExec) chooseN(what string, n int) int {
 		return 0
 	}
 	ex.res.Chooses++
+	if debugTrace {
+		ex.dbg = append(ex.dbg, "C:"+what)
+	}
 	if ex.pos < len(ex.prefix) {
 		e := ex.prefix[ex.pos]
 		if e.kind != tkChoose {
@@ -454,6 +463,7 @@ func (ex *pathExec) model(extra []*term) (map[string]uint64, satResult) {
 // assert checks a labelled property.
 func (ex *pathExec) assert(cond value, label string, where string) {
 	ex.res.Obls++
+	defer func() { ex.prefer = nil }()
 	var c *term
 	switch cv := cond.(type) {
 	case bool:
@@ -490,10 +500,18 @@ func (ex *pathExec) assert(cond value, label string, where string) {
 	ex.res.OblsSolver++
 	nc := ex.tb.not(c)
 	var r satResult
+	prefer := ex.prefer
+	ex.prefer = nil
 	if c.isConst() {
 		model, r = ex.model(nil)
 	} else {
-		model, r = ex.model([]*term{nc})
+		r = resUnknown
+		if prefer != nil && !prefer.isConst() {
+			model, r = ex.model([]*term{nc, prefer})
+		}
+		if r != resSat {
+			model, r = ex.model([]*term{nc})
+		}
 	}
 	switch r {
 	case resUnsat:
@@ -515,6 +533,12 @@ func (ex *pathExec) assert(cond value, label string, where string) {
 	ex.trace = append(ex.trace, traceEntry{kind: tkAssert, b: violated, v: cached})
 	ex.pos = len(ex.trace)
 	if violated {
+		if os.Getenv("GOSYM_DEBUG_PC") != "" {
+			fmt.Fprintf(os.Stderr, "VIOLATION %s sig=%s model=%v\n", label, ex.sig, model)
+			for _, t := range ex.pc {
+				fmt.Fprintf(os.Stderr, "   pc: %s\n", describe(t, 12))
+			}
+		}
 		ex.res.Violations = append(ex.res.Violations, &Violation{
 			Harness: ex.harness, Label: label, Sig: ex.sig, Model: model, Where: where,
 			Detail: "assertion can be false", Notes: append([]string(nil), ex.notes...),
@@ -552,41 +576,53 @@ func (ex *pathExec) unbufferedOK(ch *channel) bool {
 	return ex.unbuf[ch]
 }
 
-// onAlloc is the allocation obligation hook (C20).
+// onAlloc is the allocation obligation hook (C20): at a make([]T, n) executed
+// in a repository function, n*sizeof(T) must not exceed base + perByte*L.
+// When it can, a witness that exceeds the limit by a wide margin is preferred
+// (so that the native replay observes it unmistakably).
 func (ex *pathExec) onAlloc(fr *frame, n value, elemSize int64) {
 	ob := ex.allocObl
 	if ob == nil {
 		return
 	}
-	// only allocations made by functions of the repository under test
 	if fr.fn.Pkg == nil || !strings.HasPrefix(fr.fn.Pkg.Pkg.Path(), "github.com/tokenized/spynode") {
+		return
+	}
+	if strings.Contains(fr.fn.Name(), "VerifHarness") || strings.HasPrefix(fr.fn.Name(), "vk") {
 		return
 	}
 	limit := ob.base + ob.perByte*ob.inputLen
 	where := fr.pos()
+	site := "alloc@" + fr.fn.RelString(fr.fn.Pkg.Pkg)
 	s, isS := n.(sv)
 	if !isS {
 		bytes := asInt64(n) * elemSize
-		ex.res.allocs = append(ex.res.allocs, AllocRecord{where, fmt.Sprint(bytes)})
-		ex.sig = "alloc@" + shortPos(where)
+		ex.res.allocs = append(ex.res.allocs, AllocRecord{site, "concrete"})
+		ex.sig = site
 		ex.assert(bytes <= limit, ob.label, where)
 		return
 	}
 	tb := ex.tb
 	w := kindWidth(s.k)
-	maxN := uint64(limit / elemSize)
-	var ok *term
-	if kindSigned(s.k) {
-		ok = tb.cmp(opSLe, s.t, tb.constBV(w, maxN&mask(w)))
-	} else {
-		ok = tb.cmp(opULe, s.t, tb.constBV(w, maxN&mask(w)))
-		if w < 64 && maxN > mask(w) {
-			ok = tb.tt
+	le := func(maxBytes int64) *term {
+		maxN := uint64(maxBytes / elemSize)
+		if kindSigned(s.k) {
+			if w < 64 && maxN > mask(w-1) {
+				return tb.tt
+			}
+			return tb.cmp(opSLe, s.t, tb.constBV(w, maxN&mask(w)))
 		}
+		if w < 64 && maxN > mask(w) {
+			return tb.tt
+		}
+		return tb.cmp(opULe, s.t, tb.constBV(w, maxN&mask(w)))
 	}
-	ex.res.allocs = append(ex.res.allocs, AllocRecord{where, "symbolic*" + fmt.Sprint(elemSize)})
-	ex.sig = "alloc@" + shortPos(where)
-	ex.assert(norm(ok, types.Bool), ob.label, where)
+	ex.res.allocs = append(ex.res.allocs, AllocRecord{site, "symbolic"})
+	ex.sig = site
+	// prefer a witness that exceeds the limit by a wide margin (64 MiB) without being
+	// so large that the native run dies in makeslice instead of allocating
+	ex.prefer = tb.and(tb.not(le(limit+(64<<20))), le(256<<20))
+	ex.assert(norm(le(limit), types.Bool), ob.label, where)
 }
 
 func shortPos(s string) string {
@@ -628,6 +664,7 @@ type Report struct {
 	ViolationCount int
 	Reached        map[string]int
 	Cuts           map[string]int
+	Assumptions    map[string]int
 	Solver         SolverStats
 	Funcs          map[string]int64
 	Samples        []PathSample
@@ -648,6 +685,7 @@ type PathSample struct {
 }
 
 var thoroughTier bool
+var debugTrace = os.Getenv("GOSYM_DEBUG_TRACE") != ""
 
 // SetTier selects what verifrt.Thorough() returns.
 func SetTier(thorough bool) { thoroughTier = thorough }
@@ -660,7 +698,7 @@ func (e *Explorer) Run() *Report {
 	start := time.Now()
 	rep := &Report{
 		Harness: e.Harness, PathsByStatus: map[string]int{}, Reached: map[string]int{},
-		Cuts: map[string]int{}, Funcs: map[string]int64{}, Allocs: map[string]int{},
+		Cuts: map[string]int{}, Assumptions: map[string]int{}, Funcs: map[string]int64{}, Allocs: map[string]int{},
 		BlockedNotes: map[string]int{},
 	}
 	rep.Solver.ByBackend = map[string]int{}
@@ -676,6 +714,20 @@ func (e *Explorer) Run() *Report {
 	}
 	if e.Cfg.ConcreteInputs != nil {
 		nw = 1
+	}
+	if os.Getenv("GOSYM_PROGRESS") != "" {
+		go func() {
+			for {
+				time.Sleep(5 * time.Second)
+				mu.Lock()
+				fmt.Fprintf(os.Stderr, "  progress %s: paths=%d work=%d active=%d status=%v\n", e.Harness, rep.Paths, len(work), active, rep.PathsByStatus)
+				done := stop || (len(work) == 0 && active == 0)
+				mu.Unlock()
+				if done {
+					return
+				}
+			}
+		}()
 	}
 	var wg sync.WaitGroup
 	for w := 0; w < nw; w++ {
@@ -727,6 +779,9 @@ func (e *Explorer) Run() *Report {
 					}
 					for _, c := range res.Cuts {
 						rep.Cuts[c]++
+					}
+					for _, c := range res.Assumptions {
+						rep.Assumptions[c]++
 					}
 					for _, a := range res.allocs {
 						rep.Allocs[a.Where+" "+a.Bytes]++
@@ -850,6 +905,9 @@ func (e *Explorer) runPath(sv *solver, prefix []traceEntry) (res *PathResult, en
 	}
 	call(i, nil, 0, e.Fn, nil)
 	res.Status = "done"
+	if debugTrace {
+		fmt.Fprintf(os.Stderr, "PATH %s\n", strings.Join(ex.dbg, " | "))
+	}
 	if ex.pos < len(ex.prefix) {
 		engineErr = fmt.Sprintf("%s: path ended with %d unused trace entries (non-deterministic execution)", e.Harness, len(ex.prefix)-ex.pos)
 	}
